@@ -141,7 +141,13 @@ class BaseFileWriterSession(BaseWriterSession):
             _logger.exception('Failed to parse date.')
             return
 
-        last_modified = time.mktime(last_modified)
+        if not last_modified:
+            return
+
+        try:
+            last_modified = time.mktime(last_modified)
+        except (ValueError, OverflowError):
+            return
 
         os.utime(filename, (time.time(), last_modified))
 
